@@ -9,7 +9,7 @@ def gen_ops(r, n):
     ops = []; live = True
     for _ in range(n):
         c = r.random()
-        if c < 0.3 and live: ops.append(f"F:{r.randrange(NFN)}")
+        if c < 0.3 and live: ops.append(f"{r.choice('FFG')}:{r.randrange(NFN)}")
         elif c < 0.8: ops.append(("T:" if r.random() < 0.2 else "A:") + str(r.randrange(NFN)))
         elif c < 0.9 and live: ops.append("D"); live = False
         elif not live: ops.append("N"); live = True
@@ -18,7 +18,7 @@ def gen_ops(r, n):
 
 def run(res, tier, seed, replay):
     res.cov["rule"] = ("real: 6 sibling async functions (free functions and a method; by-value and by-reference parameters; unit, u32, String and 136-byte [u64;17] outputs; two with the SAME output type; originals suspending 0-3 times and counting their body runs), "
-                       "random sequences (length <= 30) of fake / await / await on a spawned thread / drop injector / new injector through async_func!/async_return! whose value expression counts its evaluations, run with a hand-written poll-counting executor in a forked child; "
+                       "random sequences (length <= 30) of fake (two different fakes per function, so that re-faking A, B, A is exercised) / await / await on a spawned thread / drop injector / new injector through async_func!/async_return! whose value expression counts its evaluations, run with a hand-written poll-counting executor in a forked child; "
                        "per await: value class, number of polls, body runs, evaluations; after the sequence every function is awaited once more (original behaviour back); each result is compared with the extracted dispatch spec; "
                        "distinct = distinct (function, faked?, thread?, outcome)")
     res.cov["trusted_base"] = vlib.TRUSTED_COMMON + ["distinct async fns have distinct future types and distinct <F as Future>::poll symbols (rustc's lowering; observed, not proved)", "harness/real asyncs.rs executor and counters"]
@@ -31,7 +31,8 @@ def run(res, tier, seed, replay):
     r = random.Random(seed + 14)
     n = 200 if tier == "quick" else 8000
     cases = [(f"s{i}", gen_ops(r, r.randint(1, 30))) for i in range(n)]
-    cases += [("k0", ["F:0", "A:0", "A:0", "A:4", "D", "A:0"]), ("k1", ["F:0", "F:0", "A:0", "D", "A:0", "N", "F:4", "A:4", "A:0"]), ("k2", [f"F:{i}" for i in range(NFN)] + [f"T:{i}" for i in range(NFN)])]
+    cases += [("k0", ["F:0", "A:0", "A:0", "A:4", "D", "A:0"]), ("k1", ["F:0", "F:0", "A:0", "D", "A:0", "N", "F:4", "A:4", "A:0"]), ("k2", [f"F:{i}" for i in range(NFN)] + [f"T:{i}" for i in range(NFN)]),
+              ("k3", ["F:0", "A:0", "G:0", "A:0", "F:0", "A:0", "T:0", "D", "A:0"]), ("k4", ["G:1", "F:1", "G:1", "A:1", "F:3", "G:3", "F:3", "A:3"])]
     lines = [f"{cid} {','.join(ops)}" for cid, ops in cases]
     shards = [lines[i::8] for i in range(8)]
     procs = [subprocess.Popen([exe, "async"], stdin=subprocess.PIPE, stdout=subprocess.PIPE, text=True) for _ in shards]
@@ -54,15 +55,15 @@ def run(res, tier, seed, replay):
         faked = {}; live = True
         for op, g in zip(ops, got):
             t = op.split(":")
-            if t[0] == "F" and live: faked[int(t[1])] = True
+            if t[0] in ("F", "G") and live: faked[int(t[1])] = "f" if t[0] == "F" else "g"
             elif t[0] == "D": faked = {}; live = False
             elif t[0] == "N": live = True
             elif t[0] in ("A", "T"):
                 i = int(t[1]); f = g.split(":")
                 distinct.add((i, i in faked, t[0], tuple(f[1:2] + f[2:])))
                 if i in faked:
-                    if not (f[2] == "1" and f[3] == "0" and f[4] == "1" and (f[1].startswith("f") or (i == 2 and f[1] == "u"))):
-                        res.violation(f"await of the faked async fn {i} gave value={f[1]} polls={f[2]} body_runs={f[3]} evaluations={f[4]}; must complete on the first poll with a fresh value and no body run", case, g)
+                    if not (f[2] == "1" and f[3] == "0" and f[4] == "1" and (f[1].startswith(faked[i]) or (i == 2 and f[1] == "u"))):
+                        res.violation(f"await of the faked async fn {i} gave value={f[1]} polls={f[2]} body_runs={f[3]} evaluations={f[4]}; must complete on the first poll with a fresh value OF THE MOST RECENT FAKE and no body run", case, g)
                 else:
                     if not (f[1] in ("o", "u") and f[2] == str(1 + YIELDS[i]) and f[3] == "1" and f[4] == "0"):
                         res.violation(f"await of the un-faked async fn {i} gave value={f[1]} polls={f[2]} body_runs={f[3]} evaluations={f[4]}; must behave as the original ({1 + YIELDS[i]} polls, one body run)", case, g)
